@@ -1223,6 +1223,47 @@ pub fn timing() -> String {
             exponent
         ));
     }
+    // operations on a range with n alternatives / n comparators against small operands: linear too
+    let op_families: Vec<(&str, Box<dyn Fn(usize) -> String>)> = vec![
+        ("ops on n alternatives", Box::new(|n| (1..=n).map(|i| format!("0.0.{}", i)).collect::<Vec<_>>().join("||"))),
+        ("ops on n comparators", Box::new(|n| (1..=n).map(|i| format!(">=0.0.{}", i)).collect::<Vec<_>>().join(" "))),
+    ];
+    let smalls: Vec<Range> = ["0.0.0", ">=0.0.5 <0.0.9", "<0.0.3 || >1.0.0", "^1.2.0"].iter().map(|s| Range::parse(s).unwrap()).collect();
+    let probe = Version::parse("0.0.7").unwrap();
+    for (name, f) in op_families.iter() {
+        let base = 2000usize;
+        let mut times = Vec::new();
+        for k in 0..4 {
+            let input = f(base << k);
+            let big = Range::parse(&input).unwrap();
+            let mut best = f64::MAX;
+            for _ in 0..5 {
+                let t = Instant::now();
+                std::hint::black_box(big.to_string().len());
+                std::hint::black_box(big.satisfies(&probe));
+                std::hint::black_box(big.min_version());
+                for s in &smalls {
+                    std::hint::black_box(s.difference(&big));
+                    std::hint::black_box(big.difference(s));
+                    std::hint::black_box(big.intersect(s));
+                    std::hint::black_box(s.allows_any(&big));
+                    std::hint::black_box(big.allows_all(s));
+                }
+                best = best.min(t.elapsed().as_secs_f64());
+            }
+            times.push((input.len(), best));
+        }
+        let (n0, t0) = times[0];
+        let (n3, t3) = times[3];
+        let exponent = if t0 > 0.0 && t3 > 0.0 { (t3 / t0).ln() / ((n3 as f64) / (n0 as f64)).ln() } else { 0.0 };
+        out.push_str(&format!(
+            ",{{\"family\":\"{}\",\"sizes\":[{}],\"seconds\":[{}],\"exponent\":{:.3}}}",
+            name,
+            times.iter().map(|x| x.0.to_string()).collect::<Vec<_>>().join(","),
+            times.iter().map(|x| format!("{:.6}", x.1)).collect::<Vec<_>>().join(","),
+            exponent
+        ));
+    }
     out.push(']');
     out
 }
